@@ -1,10 +1,124 @@
 package main
 
+// C02: combinators denote the set / geometric operation they name.
+//
+//  (a) correspondence, evaluated by coq/Sdf/C02Corr.v at primitive floats: the matrix constructors
+//      and M22/M33/M44 Mul / Inverse / Determinant / MulPosition (model translated from
+//      sdf/matrix.go by harness/exprgen on this run), the blend functions, SawTooth, the extrusion
+//      maps, CacheSDF2 on query histories and VoxelSDF3 at corners / faces / interior / outside;
+//  (b) direct metamorphic oracles on the implementation: for every node of random expression
+//      trees (harness/shapes) the parent's Evaluate against the named operation applied to the
+//      children's Evaluate, plus adversarial parameter strata built through the public API.
+//
+// The trees themselves are compared with the Coq model by cmd/c01 (same generator).
+
 import (
+	"encoding/json"
+	"fmt"
+	"math"
+	"os"
+	"path/filepath"
+
 	"verifharness/exprgen"
 	. "verifharness/kit"
+	"verifharness/shapes"
 )
 
 func main() { Main("C02", check, exprgen.Gen) }
 
-func check(c *Ctx, r *Report) error { return nil }
+const imp = "From Sdfx Require Import Sdf.C02Corr.\nOpen Scope float_scope."
+
+// tolerance of the direct oracles: 1e-9 relative to the magnitudes involved
+func closeTo(a, b float64, scale ...float64) bool {
+	if a == b {
+		return true
+	}
+	if math.IsNaN(a) || math.IsNaN(b) || math.IsInf(a, 0) || math.IsInf(b, 0) {
+		return false
+	}
+	m := math.Max(1, math.Max(math.Abs(a), math.Abs(b)))
+	for _, s := range scale {
+		m = math.Max(m, math.Abs(s))
+	}
+	return math.Abs(a-b) <= 1e-9*m
+}
+
+// leq: a <= b up to the tolerance
+func leq(a, b float64, scale ...float64) bool { return a <= b || closeTo(a, b, scale...) }
+
+func hx(xs ...float64) string {
+	s := ""
+	for i, x := range xs {
+		if i > 0 {
+			s += ","
+		}
+		s += fmt.Sprintf("%x", x)
+	}
+	return s
+}
+
+type corpusT struct {
+	Blends []struct {
+		Fn      string  `json:"fn"`
+		K, A, B float64 `json:"k"`
+	} `json:"-"`
+	PowMin [][3]float64 `json:"powmin"`      // k, a, b: the known finding (PowMin removes material)
+	Cache0 [][2]float64 `json:"cache_zero"`  // points queried as (+0 / -0) pairs through a cache of RotateCopy2D
+	Voxel  [][4]float64 `json:"voxel_thin"`  // box size x y z, meshCells: thin boxes (0 cells per axis before the fix)
+	Loft   [][3]float64 `json:"loft_flat"`   // height, round (= height/2), z
+	Revolve []float64   `json:"revolve_theta"`
+}
+
+func check(c *Ctx, r *Report) error {
+	rng := NewRng(c.Seed)
+	var cp corpusT
+	if b, err := os.ReadFile(filepath.Join(c.Verif, "corpus", "C02.json")); err == nil {
+		if err := json.Unmarshal(b, &cp); err != nil {
+			return fmt.Errorf("corpus/C02.json: %v", err)
+		}
+	}
+	h := &harness{c: c, r: r, rng: rng, g: &shapes.Gen{R: rng}, hist: map[string]int{}}
+
+	// ---- corpus first: witnesses of repaired defects and of the known finding
+	h.corpus(&cp)
+
+	// ---- (a) correspondence
+	if err := h.matrixCases(TierN(c.Tier, 900, 20000, 3000)); err != nil {
+		return err
+	}
+	if err := h.funCases(TierN(c.Tier, 1500, 30000, 5000)); err != nil {
+		return err
+	}
+	if err := h.cacheCases(TierN(c.Tier, 40, 600, 120)); err != nil {
+		return err
+	}
+	if err := h.voxelCases(TierN(c.Tier, 24, 300, 60)); err != nil {
+		return err
+	}
+
+	// ---- (b) direct oracles
+	h.blendOracles(TierN(c.Tier, 4000, 200000, 20000))
+	n3 := TierN(c.Tier, 700, 12000, 2500)
+	n2 := TierN(c.Tier, 400, 6000, 1200)
+	for k := 0; k < n3; k++ {
+		h.walk(h.g.Gen3(k%4+1), 0)
+	}
+	for k := 0; k < n2; k++ {
+		h.walk(h.g.Gen2(k%4+1), 0)
+	}
+	h.strata(TierN(c.Tier, 40, 600, 120))
+
+	r.Coverage["node_oracles"] = h.hist
+	r.Rule = "correspondence: generated arguments for every matrix constructor / Mul / Inverse / Determinant / MulPosition of M22, M33, M44 (rotation axes incl. near-degenerate and huge, angles at and around multiples of pi/2, mirrors, products of rigid and non-rigid factors, nearly singular matrices), RoundMin/ChamferMin/PolyMin/PolyMax (radius from 1e-6 to 100x the operands), SawTooth, the four extrusion maps, CacheSDF2 histories with repeats / -0 / NaN, VoxelSDF3 at every kind of position; the Coq model at primitive floats must agree within 1e-12 relative (bit-exact agreement counted separately). direct oracles: every internal node of random expression trees (depth <= 4, 35 combinators, parameters recovered from the Coq term the generator emitted in lock step) and adversarial parameter strata: parent Evaluate vs the named operation on the children's Evaluate at 6 points per node; exact where the operation is exact in floating point (min, max, negation, offset, elongate, array), 1e-9 relative otherwise. non-trivial = a node with at least one operand that is itself a combinator, or a blend / matrix case off the trivial strata; distinct by tree description / argument tuple."
+	r.Trusted = append(r.Trusted,
+		"hand model coq/Sdf/Shape.v tied to the Go code by differential execution (cmd/c01, same tree generator); matrix code translated from the Go AST by harness/exprgen on every run",
+		"Gallina port of Go math (coq/Num/GoMath.v)",
+		"CacheSDF2: the mutex makes Evaluate atomic (C10); histories are therefore sequences of atomic bodies",
+		"ExpMin / PowMin use math.Exp / Log / Pow (assembly on amd64): compared with an independent float64 evaluation of the same real formula within 1e-9, not with a Coq model")
+	r.Assumptions = append(r.Assumptions,
+		"theorems are over the reals; float64 rounding is not proved (oracle tolerance 1e-9 relative, correspondence tolerance 1e-12 relative)",
+		"rotate-copy invariance is sampled away from the sector boundaries (azimuth margin 1e-6): on a boundary the fold is discontinuous and rounding may pick either side",
+		"revolve sector membership is sampled with an azimuth margin of 1e-6 from 0 and theta",
+		"ExpMin: result <= min is checked only where exp(-k*a) + exp(-k*b) neither underflows to 0 nor overflows (far outside it returns +Inf, which keeps outside points outside)")
+	return h.flush()
+}
